@@ -44,7 +44,7 @@ func TestC29(t *testing.T) {
 	r.Assume("synthetic timestamps lie years in the past, which keeps the routers' wall-clock future-block check neutral")
 
 	maxV := r.N(7, 21)
-	perV := r.N(2, 4)
+	perV := r.N(2, 6)
 	covered := []string{}
 	flavors := append(append([]*es.Flavor{}, es.PoSAFlavors...), es.PoSAFlavorsB...)
 	for _, f := range flavors {
@@ -193,6 +193,11 @@ func (t *trial) run(v int) {
 			side = nil // overtook, or fell hopelessly behind
 		}
 	}
+	// directed: the sealer of the most recent epoch header seals a block and then immediately the
+	// next one (inside the recent window whenever the set has >= 2 validators)
+	if !t.epochSealerTwice(tip) {
+		return
+	}
 	// duplicates: resubmitting everything changes nothing
 	d0 := e.HSDigestChain(t.chainID)
 	var all [][]byte
@@ -212,6 +217,66 @@ func (t *trial) run(v int) {
 	} else {
 		r.Count(f.Name+":resubmission_no_change", 1)
 	}
+}
+
+func (t *trial) epochSealerTwice(tip *es.PNode) bool {
+	c, rng := t.c, t.rng
+	var x *es.Addr
+	for p := tip; p != nil; p = p.Parent {
+		if len(p.Announce) > 0 {
+			a := p.Sealer
+			x = &a
+			break
+		}
+	}
+	if x == nil || c.Keys[*x] == nil {
+		return true
+	}
+	// walk forward with honest blocks until x may seal (at most a few steps), avoiding epoch heights
+	cur := tip
+	for i := 0; i < 2*c.MaxV+2; i++ {
+		first := c.Next(rng, cur, es.HonestOpt{Sealer: x})
+		if first != nil && len(c.M.InEffect(cur)) >= 2 {
+			if !t.submit([]*es.Hdr{first}, []*es.PNode{cur}, "directed:epoch-sealer-first") {
+				return false
+			}
+			n1 := t.byHash[first.Hash()]
+			if n1 == nil {
+				return true
+			}
+			set := c.M.InEffect(n1)
+			if len(set) < 2 || !c.M.RecentlySealed(n1, *x, len(set)) {
+				return true
+			}
+			// second block by the same sealer: build honestly with another sealer, then re-seal as x
+			h := c.Next(rng, n1, es.HonestOpt{})
+			if h == nil {
+				return true
+			}
+			if !t.f.Clique {
+				h.Coinbase = [20]byte(*x)
+			}
+			h.Difficulty = big.NewInt(1)
+			if set[h.Number%uint64(len(set))] == *x {
+				h.Difficulty = big.NewInt(2)
+			}
+			t.f.Seal(h, c.Keys[*x], sealChainID)
+			t.r.Count(t.f.Name+":directed_epoch_sealer_twice", 1)
+			return t.submit([]*es.Hdr{h}, []*es.PNode{n1}, "directed:epoch-sealer-twice")
+		}
+		nx := c.Next(rng, cur, es.HonestOpt{})
+		if nx == nil {
+			return true
+		}
+		if !t.submit([]*es.Hdr{nx}, []*es.PNode{cur}, "directed:advance") {
+			return false
+		}
+		if t.byHash[nx.Hash()] == nil {
+			return true
+		}
+		cur = t.byHash[nx.Hash()]
+	}
+	return true
 }
 
 func maxInt(a, b int) int {
